@@ -32,7 +32,7 @@ struct Gen
         o.d = std::move(d);
         p.ops.push_back(std::move(o));
     }
-    void set_init(int64_t h, int64_t N, int bad = BAD_NONE) { op(OP_SET_INIT, {h, N, rnd(1u << 30), rnd(2), bad, rnd(64), rnd(8)}); }
+    void set_init(int64_t h, int64_t N, int bad = BAD_NONE, int only_start = 0) { op(OP_SET_INIT, {h, N, rnd(1u << 30), rnd(2), bad, rnd(64), rnd(8), only_start}); }
     void configure(int64_t h, bool maps, int mask = -1)
     {
         int64_t fm = mask >= 0 ? mask : (r.chance(0.15) ? 0 : (r.chance(0.15) ? 255 : rnd(256)));
@@ -57,7 +57,7 @@ struct Gen
     void eval(int64_t h, int checks, int ws_sel = -1, int xmode = 0, int exmode = -1)
     {
         int64_t a0 = rnd(1u << 30), a1 = ws_sel >= 0 ? ws_sel : rnd(5), a2 = exmode >= 0 ? exmode : rnd(6), a3 = rnd(1u << 30), a4 = rnd(3), a5 = r.chance(0.75) ? 1 : 0;
-        int64_t af = r.chance(abort_rate) ? 1 + rnd(4) : 0, ac = rnd(1u << 20);
+        int64_t af = r.chance(abort_rate) ? 1 + rnd(5) : 0, ac = rnd(1u << 20);
         op(OP_EVAL, {h, a0, xmode, a1, a2, a3, a4, a5, checks, af, ac});
     }
 };
@@ -70,7 +70,15 @@ inline Plan gen_plan(uint64_t seed, uint64_t index, Tier tier, int profile, bool
     // swarm configuration: which callbacks are yield points, scheduler stickiness, cost program, map kinds
     int64_t ycfg = profile == P_C12 || profile == P_C15 ? (r.chance(0.8) ? 7 : g.rnd(8)) : g.rnd(8);
     bool small = profile == P_C19 ? r.chance(0.5) : r.chance(0.2);
-    p.ci = {ycfg, g.rnd(7), g.rnd(1u << 30), small ? 1 : 0, g.rnd(5), g.rnd(12), g.rnd(15)};
+    // cost-program style: mostly the smooth family; the special styles only where their oracle makes sense
+    int64_t style = 0;
+    {
+        double u = r.unit();
+        if (profile == P_C07) style = u < 0.08 ? 1 : (u < 0.16 ? 3 : 0);
+        else if (profile == P_C12) style = u < 0.1 ? 2 : (u < 0.15 ? 3 : 0);
+        else if (profile == P_C10 || profile == P_C08) style = u < 0.07 ? 3 : 0;
+    }
+    p.ci = {ycfg, g.rnd(7), g.rnd(1u << 30), small ? 1 : 0, g.rnd(5), g.rnd(12), g.rnd(15), style};
     const bool thorough = tier == Tier::Thorough;
     switch (profile)
     {
@@ -86,7 +94,8 @@ inline Plan gen_plan(uint64_t seed, uint64_t index, Tier tier, int profile, bool
         {
             if (e > 0 && r.chance(0.5)) { if (r.chance(0.5)) g.op(OP_SET_FLAGS, {0, g.rnd(256)}); else { bool mm = r.chance(0.3); g.configure(0, mm); } }
             if (r.chance(0.2)) { int kind = r.chance(0.5) ? OP_COPY : OP_ASSIGN; int64_t xs = g.rnd(1u << 30); g.op(kind, {0, 1, xs}); g.eval(1, CHK_TWIN | CHK_FD); }
-            g.eval(0, CHK_TWIN | CHK_FD, -1, r.chance(0.15) ? 2 : 0);
+            g.eval(0, CHK_TWIN | CHK_FD, -1, style == 1 ? (r.chance(0.7) ? 4 : 0) : (r.chance(0.15) ? 2 : 0));
+            if (r.chance(0.08)) g.op(OP_CHECKGRAD, {0, g.rnd(1u << 30), g.rnd(5), r.chance(0.7) ? 1 : 0, 0, 0, 0, 0, 0, 1 + g.rnd(1u << 20)}, {0.0});
         }
         if (r.chance(0.25))
         {
@@ -136,7 +145,19 @@ inline Plan gen_plan(uint64_t seed, uint64_t index, Tier tier, int profile, bool
             if (u < 0.12) g.op(OP_SET_FLAGS, {g.rnd(3), g.rnd(256)});
             else if (u < 0.2) g.op(OP_SET_SMAP, {g.rnd(3), g.rnd(3)});
             else if (u < 0.25) g.op(OP_SET_TMAP, {g.rnd(3), g.rnd(3)});
-            else if (u < 0.33) { int64_t hh = g.rnd(3); int64_t nn = g.pick_N(); g.set_init(hh, nn); }
+            else if (u < 0.29) { int64_t hh = g.rnd(3); int64_t nn = g.pick_N(); g.set_init(hh, nn); }
+            else if (u < 0.31)
+            {
+                // a rejected initialisation (other segment count), then the repaired one
+                int64_t hh = g.rnd(3), nn = g.pick_N();
+                static const int kinds[] = {BAD_TIME_NAN, BAD_WP_NAN, BAD_TIME_BELOW, BAD_BC_NAN, BAD_ROWS_PLUS, BAD_WP_PINF};
+                int bk = kinds[g.rnd(6)];
+                g.set_init(hh, nn, bk);
+                g.set_init(hh, nn);
+                g.op(OP_GET_DIM, {hh});
+                g.op(OP_INIT_GUESS, {hh});
+            }
+            else if (u < 0.33) { int64_t hh = g.rnd(3); g.set_init(hh, 1, BAD_NONE, 1); int chk = CHK_EXPOSED | CHK_TWIN; g.eval(hh, chk, 4, 1, 0); g.set_init(hh, 1, BAD_NONE, 1); g.eval(hh, chk, 4, 1, 0); }
             else if (u < 0.38) g.op(OP_COPY, {g.rnd(3), g.rnd(3), g.rnd(1u << 30)});
             else if (u < 0.43) g.op(OP_ASSIGN, {g.rnd(3), g.rnd(3), g.rnd(1u << 30)});
             else if (u < 0.50) g.op(OP_MUTATE_USER_MAP, {g.rnd(2), 2, g.rnd(5)});
@@ -162,7 +183,15 @@ inline Plan gen_plan(uint64_t seed, uint64_t index, Tier tier, int profile, bool
             if (u < 0.15) { int64_t hh = g.rnd(2); int64_t nn = r.chance(0.3) ? r.range(1, 2) : g.pick_N(); g.set_init(hh, nn); }
             else if (u < 0.22) g.op(OP_SET_FLAGS, {g.rnd(2), g.rnd(256)});
             else if (u < 0.3) g.op(OP_WS_COPY, {g.rnd(3), g.rnd(3), g.rnd(2)});
-            else if (u < 0.35) g.op(OP_SET_K, {g.rnd(2), r.range(1, 64)});
+            else if (u < 0.33) g.op(OP_SET_K, {g.rnd(2), r.range(1, 64)});
+            else if (u < 0.37)
+            {
+                int64_t hh = g.rnd(2), xs = g.rnd(1u << 30), wsel = r.range(1, 4);
+                g.op(OP_EVAL, {hh, xs, 0, wsel, 0, 0, 0, 1, CHK_TWIN | CHK_TRACE, 0, 0});
+                g.set_init(hh, 1, BAD_NONE, 1);
+                g.op(OP_EVAL, {hh, xs, 0, wsel, 0, 0, 0, 1, CHK_TWIN | CHK_TRACE, 0, 0});
+            }
+            else if (u < 0.40) g.op(OP_CHECKGRAD, {g.rnd(2), g.rnd(1u << 30), r.range(1, 4), r.chance(0.7) ? 1 : 0, 0, 0, 0, 0, 0, 1 + g.rnd(1u << 20)}, {0.0});
             else { int64_t hh = g.rnd(2); int wsel = (int)r.range(1, 4); g.eval(hh, CHK_TWIN, wsel); } // veteran workspaces (and the built-in one)
         }
         break;
@@ -193,7 +222,7 @@ inline Plan gen_plan(uint64_t seed, uint64_t index, Tier tier, int profile, bool
         for (int q = 0; q < n; ++q)
         {
             double u = r.unit();
-            if (u < 0.55) g.op(OP_CONCURRENT, {0, g.rnd(3), r.chance(0.6) ? 1 : 0, g.rnd(1u << 30), 0, r.chance(0.3) ? 1 : 0});
+            if (u < 0.55) g.op(OP_CONCURRENT, {0, g.rnd(3), r.chance(0.6) ? 1 : 0, g.rnd(1u << 30), 0, (r.chance(0.3) ? 1 : 0) | (r.chance(0.15) ? 2 : 0) | (r.chance(0.15) ? 4 : 0)});
             else if (u < 0.85) g.eval(0, CHK_TWIN, -1, 0, (int)r.range(1, 5));
             else g.configure(0, r.chance(0.5));
         }
@@ -208,8 +237,8 @@ inline Plan gen_plan(uint64_t seed, uint64_t index, Tier tier, int profile, bool
         for (int q = 0; q < n; ++q)
         {
             double u = r.unit();
-            if (u < 0.18) g.op(OP_COPY, {g.rnd(3), g.rnd(3), g.rnd(1u << 30)});
-            else if (u < 0.38) g.op(OP_ASSIGN, {g.rnd(3), g.rnd(3), g.rnd(1u << 30)});
+            if (u < 0.18) g.op(OP_COPY, {g.rnd(3), g.rnd(3), g.rnd(1u << 30), r.chance(0.25) ? 1 : 0});
+            else if (u < 0.38) g.op(OP_ASSIGN, {g.rnd(3), g.rnd(3), g.rnd(1u << 30), r.chance(0.25) ? 1 : 0});
             else if (u < 0.43) g.op(OP_SELF_ASSIGN, {g.rnd(3)});
             else if (u < 0.53) g.op(OP_DESTROY, {g.rnd(3)});
             else if (u < 0.6) g.op(OP_MUTATE_USER_MAP, {g.rnd(2), g.rnd(3), g.rnd(6)});
@@ -251,7 +280,7 @@ inline Plan gen_plan(uint64_t seed, uint64_t index, Tier tier, int profile, bool
             if (q > 0 && r.chance(0.4)) g.configure(0, r.chance(0.3));
             int functor = r.chance(0.4) ? 0 : (int)r.range(1, 3);
             double delta = (r.chance(0.5) ? 1.0 : -1.0) * r.logreal(1e-3, 1e3);
-            g.op(OP_CHECKGRAD, {0, g.rnd(1u << 30), g.rnd(5), r.chance(0.7) ? 1 : 0, functor, g.rnd(16), g.rnd(8), r.chance(0.12) ? 1 : 0, r.chance(0.25) ? 1 : 0}, {delta});
+            g.op(OP_CHECKGRAD, {0, g.rnd(1u << 30), g.rnd(5), r.chance(0.7) ? 1 : 0, functor, g.rnd(16), g.rnd(8), r.chance(0.12) ? 1 : 0, r.chance(0.25) ? 1 : 0, r.chance(0.1) ? 1 + g.rnd(1u << 20) : 0}, {delta});
         }
         break;
     }
